@@ -45,6 +45,8 @@ pub struct Ctx {
     // watchdog / announce
     slots: Vec<(AtomicU64, AtomicU64, AtomicUsize)>, // (start millis since ctx start, or 0 = idle; index; sweep id)
     announce_dir: Option<String>, pub case_timeout: Duration,
+    /// called just before the process exits (flushes the reference trace)
+    pub at_exit: fn(),
 }
 
 pub fn mix(seed: u64, a: u64) -> u64 { // splitmix64: deterministic filler values only
@@ -72,7 +74,7 @@ impl Ctx {
             classes: Default::default(), samples: Default::default(), violations: Default::default(), violations_total: AtomicU64::new(0), sigs_seen: Default::default(),
             sweeps: Default::default(), guards: Default::default(), engine_errors: Default::default(), notes: Default::default(), extra: Default::default(),
             slots: (0..MAX_THREADS).map(|_| (AtomicU64::new(0), AtomicU64::new(0), AtomicUsize::new(0))).collect(),
-            announce_dir: std::env::var("VERIF_ANNOUNCE").ok(), case_timeout: Duration::from_secs(std::env::var("VERIF_CASE_TIMEOUT").ok().and_then(|s| s.parse().ok()).unwrap_or(30)) }
+            at_exit: || {}, announce_dir: std::env::var("VERIF_ANNOUNCE").ok(), case_timeout: Duration::from_secs(std::env::var("VERIF_CASE_TIMEOUT").ok().and_then(|s| s.parse().ok()).unwrap_or(30)) }
     }
     pub fn quick(&self) -> bool { self.tier == Tier::Quick }
     pub fn thorough(&self) -> bool { self.tier == Tier::Thorough }
@@ -187,6 +189,7 @@ impl Ctx {
     }
     /// writes the part file named by VERIF_PART (or stdout) and exits: 0 nothing found, 1 violations, 2 engine error
     pub fn finish_and_exit(&self) -> ! {
+        (self.at_exit)();
         let part = self.part_json();
         let text = serde_json::to_string(&part).unwrap();
         match std::env::var("VERIF_PART") { Ok(p) => std::fs::write(&p, text).expect("write part"), Err(_) => println!("{text}") }
